@@ -391,6 +391,83 @@ func RunC15(r *sim.Run) {
 		r.Violate("bystander_probing_stopped", removal, "no health probe reached any remaining endpoint after the removal")
 		return
 	}
+	// ---- things that exist for an instant -------------------------------------
+	// A cluster is created and deleted again, or an endpoint added and removed
+	// again, before anything has settled: the controller finds both events waiting.
+	// What counts is the last one.
+	if t.Draw(2) == 0 {
+		var gone []string
+		what := "short-lived-cluster"
+		if removal != "delete-cluster" && t.Draw(2) == 0 {
+			what = "short-lived-endpoint"
+			cur := w.Latest("alpha")
+			plus := cur.DeepCopy()
+			plus.Spec.Servers = append(plus.Spec.Servers, proxyv1alpha1.UpstreamClusterServer{Endpoint: map[bool]string{true: e0, false: e2}[removal == "replace-endpoint"]})
+			gone = []string{plus.Spec.Servers[len(plus.Spec.Servers)-1].Endpoint}
+			w.NoWait = true
+			err1 := w.Apply(plus)
+			err2 := w.Apply(cur.DeepCopy())
+			w.NoWait = false
+			w.Quiesce()
+			if err1 != nil || err2 != nil {
+				r.Inconclusive(fmt.Sprintf("apply: %v %v", err1, err2))
+				return
+			}
+		} else {
+			w.AddClusterStub("gamma", t.Range(1, 3), 2)
+			gone = w.EndpointsOf("gamma")
+			g := BaseCluster("gamma", gone)
+			w.NoWait = true
+			err := w.Apply(g)
+			if err == nil && t.Draw(2) == 0 {
+				g2 := g.DeepCopy()
+				g2.Labels = map[string]string{"touched": "1"}
+				err = w.Apply(g2)
+			}
+			w.Delete("gamma")
+			w.NoWait = false
+			w.Quiesce()
+			if err != nil {
+				r.Inconclusive("apply: " + err.Error())
+				return
+			}
+		}
+		w.Boundary()
+		goneAt := w.Now()
+		r.Logf("%s: %v existed for an instant at %v", what, gone, goneAt)
+		w.Advance(13 * time.Second)
+		w.Boundary()
+		r.Probe(what)
+		if what == "short-lived-cluster" {
+			w.SetScript("g0", &Script{Status: 200, Body: []byte("gamma")})
+			q := &Req{ID: "g0", Host: "gamma", Method: "GET", Target: "/api/v1/namespaces/default/pods/p", Headers: [][2]string{{"Authorization", "Bearer ta1"}}}
+			w.Send(q)
+			for g := 0; g < 4 && !q.Done; g++ {
+				w.Advance(time.Second)
+			}
+			w.Boundary()
+			r.Checked("deleted_cluster_503")
+			if q.Status != 503 {
+				r.Violate("deleted_cluster_still_served", what, "a cluster was created and deleted in the same instant; 13 s later a request to it got %d %q, expected 503", q.Status, trunc(q.RespBody, 120))
+				return
+			}
+		}
+		isGone := map[string]bool{}
+		for _, e := range gone {
+			isGone[e] = true
+		}
+		late := 0
+		for _, o := range w.UpObs() {
+			if o.Kind == "healthz" && isGone[o.Endpoint] && o.At > goneAt+6500*time.Millisecond {
+				late++
+			}
+		}
+		r.Checked("probing_stops")
+		if late > 0 {
+			r.Violate("removed_endpoint_still_probed", what, "%s: %d health probes reached %v more than 6.5 s after it had been removed again", what, late, gone)
+			return
+		}
+	}
 	r.SimSecs = w.Now().Seconds()
 	r.ProbeN("victims", nVictims)
 	r.Probe("removal_" + removal)
